@@ -26,6 +26,17 @@ theorem utapT_tern_le_quest : utapT.ternL ≤ utapT.questL := by decide
 resulting kinds, the same order of precedence levels and the same associativity per level (level *numbers* aside). -/
 theorem utap_matches_spec : rows genData = rows specData := by decide +kernel
 
+/-- the builtin functions of the generated grammar (`BuiltinFunction1-3` of parser.y joined with the keyword table of keywords.cpp): the
+    spelling in the text, the kind of the node the parser builds, the number of arguments -/
+def genBuiltins : List (String × String × Nat) :=
+  fnProds.filterMap (fun f => (keywordsNew.find? (fun kw => kw.2 == f.1)).map (fun kw => (kw.1, f.2.1, f.2.2)))
+
+/-- **Every builtin function name builds the node kind and takes the number of arguments the language reference gives it**, and the
+    grammar has no others. -/
+theorem utap_builtins_match_spec :
+    (∀ x ∈ builtinSpec, x ∈ genBuiltins) ∧ (∀ x ∈ genBuiltins, x ∈ builtinSpec) ∧ genBuiltins.length = builtinSpec.length ∧
+    genBuiltins.length = fnProds.length := by decide +kernel
+
 /-- every infix / prefix / postfix operator of the generated grammar can occur in a tree of the fragment the round-trip
 theorems speak about (so the fragment is the full operator set, and the theorems are not vacuous) -/
 theorem fragment_bin : ∀ x ∈ binProds, utapT.isBin x.1 = true ∧ utapT.isImply x.1 = false ∧ utapT.isPost x.1 = false := by
